@@ -7,7 +7,8 @@ from lib.vals import *
 
 THEOREMS = ["C05_same_type_is_mutual_assignability", "C05_same_type_answer", "C05_assignability_is_emptiness_of_difference",
             "C05_difference_is_set_difference", "C05_assignable_implies_inclusion", "C05_basic_types_assignability_is_inclusion",
-            "C05_list_types_assignable_implies_inclusion", "C05_list_only_types_assignable_implies_inclusion", "C05_lists_nonvacuous",
+            "C05_list_types_assignable_implies_inclusion", "C05_list_only_types_assignable_implies_inclusion",
+            "C05_list_only_types_not_assignable_has_a_separating_value", "C05_list_only_types_assignability_is_inclusion", "C05_lists_nonvacuous",
             "C05_nonvacuous"]
 IMPORTS = "From Beff Require Import Model.Cases Model.ListEmpty."
 QUERIES = ["a_sub_b", "b_sub_a", "same", "a_empty", "b_empty"]
